@@ -85,7 +85,10 @@ func genQuery(r *Rng, m *qMeta) []string {
 	G := m.Groups
 	small := !m.Big
 	for {
-		switch r.Intn(52) {
+		switch r.Intn(54) {
+		case 52, 53:
+			// expressions evaluated inside every group's own view (ORDER BY inside list functions, nested aggregates), many groups
+			return []string{"SELECT g, COUNT(*), LISTAGG(s, ',') WITHIN GROUP (ORDER BY v * 2, id) FROM a GROUP BY g;", "SELECT id % 40 AS k, COUNT(*), LISTAGG(s, '') WITHIN GROUP (ORDER BY id * -1), JSON_AGG(v + 1) FROM a GROUP BY id % 40;", "SELECT g, SUM(v * 2), MAX(UPPER(s) || STRING(id)), usum(v + id) FROM a GROUP BY g HAVING COUNT(*) > 0;"}
 		case 50, 51:
 			// DISTINCT inside aggregates: which of several equal values is kept, and in which order
 			return []string{"SELECT LISTAGG(DISTINCT s, ','), JSON_AGG(DISTINCT v), SUM(DISTINCT v * 0.1), AVG(DISTINCT v / 3.0) FROM a;", "SELECT g, LISTAGG(DISTINCT s, '|'), JSON_AGG(DISTINCT s), COUNT(DISTINCT s), usum(DISTINCT v) FROM a GROUP BY g;", "SELECT LISTAGG(DISTINCT s, ',') WITHIN GROUP (ORDER BY s) FROM a;", "SELECT id, LISTAGG(DISTINCT s, ',') OVER (PARTITION BY g) AS l FROM a;"}
